@@ -61,14 +61,25 @@ theorem JL.cons {B funs cs o os} (ha : J B funs cs o) (hb : JL B funs cs os) : J
 
 theorem JL.one {B funs cs o} (ha : J B funs cs o) : JL B funs cs [o] := JL.cons ha JL.nil
 
-theorem Le.nodiag {s s' : St} (l : Le s s') (h : s'.diags = []) : s.diags = [] := by
-  obtain ⟨m, e⟩ := l.diags
-  rw [e] at h
-  exact (List.append_eq_nil_iff.1 h).1
+/-- no diagnostic, and generation stayed inside the forms the soundness theorem covers (ghost flag) -/
+def Clean (s : St) : Prop := s.diags = [] ∧ s.outside = false
 
-theorem diag_absurd {s s' : St} {d} (l : Le (s.diag d) s') (h : s'.diags = []) : False := by
-  have := l.nodiag h
+theorem Le.nodiag {s s' : St} (l : Le s s') (h : Clean s') : Clean s := by
+  obtain ⟨m, e⟩ := l.diags
+  have h1 := h.1
+  rw [e] at h1
+  refine ⟨(List.append_eq_nil_iff.1 h1).1, ?_⟩
+  cases ho : s.outside with
+  | false => rfl
+  | true => have := l.out ho; rw [h.2] at this; cases this
+
+theorem diag_absurd {s s' : St} {d} (l : Le (s.diag d) s') (h : Clean s') : False := by
+  have := (l.nodiag h).1
   simp [St.diag] at this
+
+theorem mark_absurd {s s' : St} (l : Le s.mark s') (h : Clean s') : False := by
+  have := (l.nodiag h).2
+  simp [St.mark] at this
 
 theorem mem_push (s : St) (c : Constraint) : c ∈ (s.push c).cs := by simp [St.push]
 
@@ -235,7 +246,7 @@ theorem finish_inv {i exp v T Γx} {sx : St} {t Γ' s'} (h : finish i exp v T Γ
   rw [← h]
   simp [St.push, St.record]
 
-theorem nameRef_just {B} {r G Γ} {s s' : St} (l : Le (nameRef r G Γ s).2 s') (hd : s'.diags = []) (hΓ : EnvAll B Γ) :
+theorem nameRef_just {B} {r G Γ} {s s' : St} (l : Le (nameRef r G Γ s).2 s') (hd : Clean s') (hΓ : EnvAll B Γ) :
     JL B G.funs s'.cs (obls (nameRef r G Γ s).1) := by
   unfold nameRef at l ⊢
   cases r with
